@@ -65,14 +65,35 @@ def setup_hash(case, mode):
 
 
 def h_hash_seed(ctx, case):
-    """run_type_assignment / aggregate_votes iterate over set(...): the
-    records must not depend on that order (all C01/C03 obligations hold
-    for every iteration order)"""
+    """run_type_assignment / aggregate_votes iterate over set(...): two
+    runs on the same votes with independently chosen iteration orders
+    (= two hash seeds) must give identical records, and each run must
+    satisfy the C01/C03 obligations"""
+    from harness import C06
     NondetSet._n[0] = 0
-    r = C03.h_levels(ctx, case, confidence=True)
-    if NondetSet._n[0] > 0:
+    levels, names, parents, data = LL.build_tree(ctx, case)
+    tree, err = LL.validator_accepts(data)
+    if tree is None:
+        raise core.PathAbort('invalid')
+    IT = ctx.int('iterations', 1, 1000000)
+    nas = ctx.choice('n_assignments-1', case.get('max_nas', 2)) + 1
+    try:
+        oracle, r1 = LL.run_levels(ctx, case, tree, levels, names, parents,
+                                   1, nas, IT)
+        n1 = NondetSet._n[0]
+        oracle, r2 = LL.run_levels(ctx, case, tree, levels, names, parents,
+                                   1, nas, IT, oracle=oracle)
+    except Exception as e:
+        ctx.exception(e)
+        return 'EXC ' + type(e).__name__
+    ctx.reach('mapped')
+    if n1 > 0:
         ctx.reach('set iterated')
-    return r
+    LL.check_records(ctx, oracle, r1, levels, levels, names, parents, [0],
+                     nas, IT, confidence=True)
+    C06.same_record(ctx, r1[0], r2[0], levels,
+                    'two hash seeds (set iteration orders)')
+    return 'ok'
 
 
 HARNESSES = [
